@@ -17,4 +17,6 @@ ls -d /verif/seeded/*/ | xargs -P ${PAR:-3} -I{} bash -c 'one {} '"$tmp"
 echo "# seed sweep $(date -u +%FT%TZ)  repo=$(git -C /repo log --format=%h -1)  verif=$(git -C /verif log --format=%h -1)" > $out
 cat $tmp/r_*.txt >> $out
 rm -rf $tmp
-echo "seeds: $(grep -vc '^#' $out)  caught (some check exits 1): $(grep -c 'exit=1' $out)  not caught: $(grep -v '^#' $out | grep -vc 'exit=1')"
+caught=$(grep -v '^#' $out | grep -cE "== C[0-9]+ exit=[12]  [1-9][0-9]* violation line")
+echo "seeds: $(grep -vc '^#' $out)  caught (some check prints VIOLATION lines): $caught  not caught: $(( $(grep -vc '^#' $out) - caught ))"
+grep -v '^#' $out | grep -vE "== C[0-9]+ exit=[12]  [1-9][0-9]* violation line" | cut -c1-200
